@@ -17,7 +17,7 @@ translation, engine reseeds, foreign RNG use.
 import copy
 import math
 
-from .core import H, rng_for, digest, sha, jdump, HarnessError
+from .core import H, rng_for, digest, sha, jdump, HarnessError, raised_in_harness
 from . import gen_mol
 
 KEKULE_CURATED = [
@@ -591,6 +591,8 @@ def run_history(scenario):
         except HarnessError:
             raise
         except Exception as exc:  # noqa
+            if raised_in_harness(exc):
+                raise HarnessError("harness bug in op %s: %s: %s" % (kind, type(exc).__name__, exc))
             text = "%s: %s" % (type(exc).__name__, str(exc)[:100])
             engine_failure = isinstance(exc, ValueError) and "Conformer" in str(exc) and proxy.failures > 0
             # RDKit's UFF refuses molecules with a zero-order bond (pysmiles keeps the '.' of a salt such as
